@@ -230,13 +230,20 @@ class WheelStream(Stream):
             members.append(["%s/_vendor/%s-0.1.dist-info/METADATA" % (name.replace(".", "/"), name), "Name: %s\nVersion: 0.1\nRequires-Dist: old-dep\n" % name])
         if layout != "own-last":
             rng.shuffle(members)
-        return {"name": name, "layout": layout, "members": members}
+        case = {"name": name, "layout": layout, "members": members}
+        if rng.random() < 0.35:
+            # the file name spells the project differently from its dist-info directory (case, '.' escaped as '_'); the
+            # wheel's own dist-info is the one at the top level of the archive, wherever in the zip it was written
+            spelled = rng.choice([name.capitalize(), name.upper(), name.replace(".", "_").title()])
+            if spelled != name and layout != "nested-own":
+                case["file_name"] = spelled
+        return case
 
     def impl(self, case):
         from rv.core import digest
         from req_compile.metadata import extract_metadata
         from req_compile.errors import MetadataError
-        path = os.path.join(self.tmp, digest(case), "%s-1.0-py3-none-any.whl" % case["name"])
+        path = os.path.join(self.tmp, digest(case), "%s-1.0-py3-none-any.whl" % case.get("file_name", case["name"]))
         os.makedirs(os.path.dirname(path), exist_ok=True)
         if case["layout"] == "corrupt":
             with open(path, "wb") as f:
@@ -258,7 +265,7 @@ class WheelStream(Stream):
         return {"name": d.name, "version": str(d.version), "reqs": [str(r) for r in d.reqs]}
 
     def flags(self, case, r):
-        return [case["layout"]] + (["error:" + r["error"]] if "error" in r else [])
+        return [case["layout"]] + (["error:" + r["error"]] if "error" in r else []) + (["file-name-spelled-differently"] if case.get("file_name") else [])
 
     def oracle(self, case, r):
         lay = case["layout"]
